@@ -123,3 +123,14 @@ Example q_calls_bc_switch :
   /\ forallb (fun v => Qle_bool (1#4) v && Qle_bool v (3#4)) (nth 0 x3 []) = true
   /\ forallb (fun v => Qle_bool (1#4) v) (nth 0 x1 []) = false.
 Proof. vm_compute. repeat split; reflexivity. Qed.
+(* the order of the two masked assignments of setup matters: clamping to the minimum BEFORE the shift leaves a
+   trace composition in (min, (len(allElements)+1)*min) below the minimum (here negative); the order the code
+   uses (shift, then clamp - [shift1]) does not (C04_setup_in_bounds) *)
+Definition clamp_then_shift (nAll : Z) (minc v : Q) : Q :=
+  let v1 := if ltb Qops v minc then minc else v in
+  if ltb Qops minc v1 then sub Qops v1 (mul Qops (ofZ Qops nAll) minc) else v1.
+Example q_clamp_then_shift_refuted :
+  Qlt (clamp_then_shift 2 (1#100) (3#200)) 0 /\ shift1 Qops 2 (1#100) (3#200) = 1#100
+  /\ map (shift1 Qops 2 (1#100)) [0; 1#200; 1#100; 3#200; 1#50; 1#40; 3#100; 7#200; 1#2; 1]
+     = [1#100; 1#100; 1#100; 1#100; 1#100; 1#100; 1#100; 3#200; 12#25; 49#50].
+Proof. vm_compute. repeat split; reflexivity. Qed.
